@@ -17,7 +17,8 @@ CFG = dict(
           dict(test="TestC14Steps", timeout_quick=300, timeout_thorough=1200),
           dict(test="TestC14SendFail", timeout_quick=200, timeout_thorough=300),
           dict(test="TestC14Long", timeout_quick=300, timeout_thorough=1500)],
-    reason_text={"8": "server side: every started handler has returned, yet the server connection still holds something for them: a goroutine beyond writer + workers (none after the end of the connection), or a registry entry", "1": "the real client's observation differs from every outcome of the Gallina model (Model/Client.v, all orders of internal rules)",
+    reason_text={"11": "wedged: the scenario could not be run to its end - a goroutine of the client waits for a lock for ever; every call behind that lock hangs, also after the connection has failed",
+                 "8": "server side: every started handler has returned, yet the server connection still holds something for them: a goroutine beyond writer + workers (none after the end of the connection), or a registry entry", "1": "the real client's observation differs from every outcome of the Gallina model (Model/Client.v, all orders of internal rules)",
                  "9": "long history: at an idle point (no RPC in flight, the callers' contexts alive) more goroutines have a frame of the library on their stack than at the first idle point: something a call started has outlived the call",
                  "7": "release of the peer's state: a stream whose open succeeded and whose own context ended (cancel, or the caller's deadline) before any final envelope "
                       "for it was delivered has not written exactly one RST_STREAM with its id by the next quiescent point (scenario without read failure / write faults)",
